@@ -179,6 +179,13 @@ func main() {
 		if r.Chance(1, 2) {
 			mountAt = r.Intn(nb - 1)
 		}
+		if mountAt >= 0 && mountAt == ep-1 {
+			// the re-executed block would be the first one the new substore ever commits: it is absent from the commit
+			// info of the reopened version, so it is loaded with the zero id = its latest version (LoadVersion(0)), i.e. with
+			// the block's data already in it — the store-added-by-upgrade analogue of the first-commit crash (unreachable in
+			// pocket-core, which mounts a fixed key set); keep the two episodes apart
+			mountAt = -1
+		}
 		const upg = "upg"
 		t.Line("hist", false, "hist %d %s", h, strings.Join(ps, ","))
 		func() {
